@@ -65,6 +65,11 @@ func (c04) Generate(seed uint64, i int, tier string) *Scenario {
 	if r.Chance(1, 12) {
 		loads = append(loads, LoadSpec{Module: "missing.star", Names: []string{"nothing"}})
 	}
+	if r.Chance(1, 5) {
+		// a module the host built by hand: its values are live, mutable host
+		// values; loading binds file-local names only
+		loads = append(loads, LoadSpec{Module: "hostmod.star", Names: []string{"hm_list", "hm_dict"}})
+	}
 	o := GraphOpts{D: sc.D, Blocks: r.Range(3, 12), Faults: true, ErrorAt: -1, SelfRef: r.Chance(1, 6), Host: true, Loads: loads}
 	if r.Chance(1, 4) {
 		o.ErrorAt = r.Intn(o.Blocks)
@@ -146,13 +151,26 @@ func helperSource() string {
 }
 
 type c04loader struct {
-	sc    *Scenario
-	w     *World
-	cache map[string]starlark.StringDict
-	errs  map[string]error
+	sc      *Scenario
+	w       *World
+	cache   map[string]starlark.StringDict
+	errs    map[string]error
+	hostMod starlark.StringDict // the hand-built module, once it has been loaded
 }
 
 func (l *c04loader) load(th *starlark.Thread, module string) (starlark.StringDict, error) {
+	if module == "hostmod.star" {
+		if l.hostMod == nil {
+			d := starlark.NewDict(1)
+			d.SetKey(starlark.String("k"), starlark.NewList([]starlark.Value{starlark.MakeInt(3)}))
+			l.hostMod = starlark.StringDict{
+				"hm_list":   starlark.NewList([]starlark.Value{starlark.MakeInt(1), starlark.NewList(nil)}),
+				"hm_dict":   d,
+				"hm_unused": starlark.NewList([]starlark.Value{starlark.MakeInt(7)}),
+			}
+		}
+		return l.hostMod, nil
+	}
 	if g, ok := l.cache[module]; ok {
 		return g, l.errs[module]
 	}
@@ -571,6 +589,16 @@ func (p c04) oracle(sc *Scenario, ex *c04exec, what string, attempts int, res *R
 			res.Count("probe_unreachable_kept_checked", 1)
 			if err := NeutralMutation(v); err != nil {
 				res.Violate("unreachable-value-frozen", "%s: keep()-ed %s %s is not reachable from the globals but rejects mutation: %v", what, v.Type(), ex.ctx.KeptNames[i], err)
+			}
+		}
+	}
+	// values of the hand-built module that the finished module's globals do not reach
+	for _, k := range ex.loader.hostMod.Keys() {
+		v := ex.loader.hostMod[k]
+		if !inR[ptrKey(v)] {
+			res.Count("probe_unreachable_loaded_host_value_checked", 1)
+			if err := NeutralMutation(v); err != nil {
+				res.Violate("unreachable-value-frozen", "%s: %s of the host-built module was only loaded (names bound by load are file-local), is not reachable from the globals, yet rejects mutation: %v", what, k, err)
 			}
 		}
 	}
